@@ -31,7 +31,12 @@ def gen(ctx):
                                       "detail": g.get("refused") or g.get("error")})
         ctx.hints.append({"kind": "translator", "detail": g.get("refused") or g.get("error")})
         return
-    ctx.notes.append(f"tables regenerated from /repo (cached={g['cached']}): {json.dumps(g['stats'])}")
+    ctx.notes.append(f"tables regenerated from /repo (cached={g['cached']}): " +
+                     json.dumps({k: v for k, v in g['stats']['pgns'].items() if k != 'refused'}) + json.dumps(g['stats']['db']))
+    for cat, name, why in g["stats"]["pgns"].get("refused", []):
+        if cat in ('disp', 'dec', 'other'):
+            ctx.extra_obligations.append({"name": f"translation of {name}", "ok": False, "detail": why})
+            ctx.hints.append({"kind": "translator", "function": name, "detail": why})
     ok, out = G.compile_template("OblC08")
     for nm in G.theorem_names("OblC08"):
         ctx.extra_obligations.append({"name": f"OblC08.v:{nm}", "ok": ok, "detail": out[-800:] if not ok else ""})
